@@ -265,22 +265,25 @@ Proof.
   - destruct x; reflexivity.
 Qed.
 
+Lemma b_write_buffered_stream y : b_stream y = true -> b_write_buffered y = Done y.
+Proof. unfold b_write_buffered. intros ->. rewrite andb_false_r. reflexivity. Qed.
+
 Lemma inner_ret m ops ret err x :
   forallb set_ok ops = true -> (300 <=? ret) = true -> b_mode x = TOff -> b_stream x = false ->
   templates_mw m (probe ops ret err) x = HRet ret err (apply_sets ops (enter_templates m x)).
 Proof.
-  intros Hs Hr Hm Hst. unfold templates_mw, probe.
-  destruct m; cbn [enter_templates]; rewrite (run_sets_only _ _ Hs).
-  - reflexivity.
-  - rewrite Hr. rewrite orb_true_r. reflexivity.
-  - rewrite Hr. rewrite orb_true_r. reflexivity.
-  - rewrite Hr. rewrite orb_true_r. reflexivity.
+  intros Hs Hr Hm Hst. unfold templates_mw, templates_on, probe.
+  destruct m; cbn [enter_templates]; rewrite (run_sets_only _ _ Hs); [reflexivity| | |];
+    rewrite Hr, orb_true_r; cbv iota; unfold b_write_buffered;
+    match goal with |- context [b_wrote ?Y && _] =>
+      replace (b_wrote Y) with false by (unfold apply_sets; destruct x; reflexivity) end;
+    cbn [andb]; destruct ((ret <? 400) && negb err); reflexivity.
 Qed.
 Lemma inner_pan m ops rest ret err x :
   forallb set_ok ops = true ->
   templates_mw m (probe (ops ++ OPanic :: rest) ret err) x = HPan (apply_sets ops (enter_templates m x)).
 Proof.
-  intros Hs. unfold templates_mw, probe.
+  intros Hs. unfold templates_mw, templates_on, probe.
   destruct m; cbn [enter_templates]; rewrite (run_sets _ _ _ Hs); reflexivity.
 Qed.
 
@@ -698,7 +701,7 @@ Proof.
   (* the script up to and including the writes *)
   assert (Hscript : exists y, templates_mw m (probe (sets ++ OWh s :: map OWr bs) ret err) (entry act hd) = HRet ret err y
                               /\ Inv3 s bs y /\ gz_on y = act).
-  { unfold templates_mw, probe. destruct m eqn:Em.
+  { unfold templates_mw, templates_on, probe. destruct m eqn:Em.
     - (* no templates *)
       rewrite (run_sets _ _ _ Hs). rewrite (apply_sets_off _ _ Bm).
       cbn [run_script step]. unfold b_wh.
@@ -728,8 +731,8 @@ Proof.
       assert (St : b_stream y1 = true).
       { destruct I1 as (_ & _ & _ & [Q|[_ Q]] & _); [|exact Q].
         unfold b_active in Q. rewrite My1, My0 in Q. discriminate Q. }
-      rewrite St. cbn [orb].
-      exists y1. split; [reflexivity|]. split; [exact I1|].
+      rewrite St. cbn [orb]. rewrite (b_write_buffered_stream _ St).
+      exists y1. split; [destruct ((300 <=? ret) && (ret <? 400) && negb err); reflexivity|]. split; [exact I1|].
       rewrite Gy1, Gy0. destruct act, hd; reflexivity.
     - (* extension does not match *)
       rewrite (run_sets _ _ _ Hs). rewrite apply_sets_templates by discriminate.
@@ -746,8 +749,8 @@ Proof.
       assert (St : b_stream y1 = true).
       { destruct I1 as (_ & _ & _ & [Q|[_ Q]] & _); [|exact Q].
         unfold b_active in Q. rewrite My1, My0 in Q. discriminate Q. }
-      rewrite St. cbn [orb].
-      exists y1. split; [reflexivity|]. split; [exact I1|].
+      rewrite St. cbn [orb]. rewrite (b_write_buffered_stream _ St).
+      exists y1. split; [destruct ((300 <=? ret) && (ret <? 400) && negb err); reflexivity|]. split; [exact I1|].
       rewrite Gy1, Gy0. destruct act, hd; reflexivity. }
   destruct Hscript as (y & Hy & Iy & Gy).
   pose proof (errors_pass et (eff_path c path) (eff_errors c) _ _ ret err y Hy R1 Herr) as He.
@@ -771,67 +774,86 @@ Proof.
     + destruct y. first [reflexivity | exact Hst].
 Qed.
 
+(* header + body written through the header/gzip wrappers of a fresh stack *)
+Lemma buffered_out Y h s body :
+  fresh Y -> hget h K_CE = None -> valid_code s = true -> bodyless s = false ->
+  exists z, bnd (h_wh s (set_chdr Y h)) (fun z => match body with [] => Done z | _ => h_wr body z end) = Done z /\
+            answered s body (gz_on Y) z.
+Proof.
+  intros FY H3 Hv Hb. destruct body as [|b0 rest].
+  - destruct (write3_empty Y h s FY H3 Hv Hb) as (z & Ez & Az).
+    unfold bnd. rewrite Ez. exists z. split; [reflexivity|exact Az].
+  - destruct (write3 Y h s (b0 :: rest) FY H3 Hv Hb) as (z & Ez & Az).
+    unfold bnd in Ez |- *. exists z. split; [exact Ez|exact Az].
+Qed.
+
+Lemma templates_mw_on m inner x : m <> TOff -> templates_mw m inner x = templates_on m inner x.
+Proof. intro H. destruct m; [congruence| | |]; reflexivity. Qed.
+
+(* the script as seen by a buffering ResponseBuffer *)
+Lemma probe_buffered m sets s bs ret err X :
+  m <> TOff -> forallb set_ok sets = true -> should_buffer m (hs_fun sets []) = true ->
+  probe (sets ++ OWh s :: map OWr bs) ret err (set_b X m false false 200 [] []) =
+  HRet ret err (set_b X m true false s (hs_fun sets []) (concat bs)).
+Proof.
+  intros Hm Hs Hsb. unfold probe.
+  rewrite (run_sets _ _ _ Hs). rewrite (apply_sets_templates _ _ _ Hm).
+  cbn [run_script step]. unfold b_wh.
+  assert (Ba : b_active (set_b X m false false 200 (hs_fun sets []) []) = true)
+    by (unfold b_active; destruct m; try congruence; destruct X; reflexivity).
+  rewrite Ba. cbn [b_wrote set_b b_mode b_hdr]. rewrite Hsb. cbn [negb bnd].
+  rewrite buffered_writes; [| unfold b_active; destruct m; try congruence; destruct X; reflexivity
+                            | destruct X; reflexivity | destruct X; reflexivity].
+  destruct X; reflexivity.
+Qed.
+
 Lemma written_buffered et c path ae sets s bs ret err :
   forallb set_ok sets = true -> status_rule c path = None ->
-  valid_code s = true -> bodyless s = false -> ret < 300 -> err = false ->
+  valid_code s = true -> bodyless s = false -> ret < 400 -> err = false ->
   should_buffer (tmode_of c path) (hs_fun sets []) = true ->
-  contains (concat bs) TPL_OPEN = false ->
+  (ret < 300 -> contains (concat bs) TPL_OPEN = false) ->
   let x := serve et c path ae (sets ++ OWh s :: map OWr bs) ret err in
   cm x = Some s /\ sup x = 0%nat /\ view x = (false, concat bs).
 Proof.
   intros Hs Hr Hv Hb Hret Herr Hsb Htpl. subst err.
-  assert (R3 : (300 <=? ret) = false) by lia.
+  assert (R4 : (400 <=? ret) = false) by lia.
   unfold serve, chain. rewrite Hr. unfold status_mw.
   set (act := c_gzip c && ae). set (hd := c_header c). set (m := tmode_of c path) in *.
   pose proof (fresh_entry act hd) as F0. pose proof (entry_gz act hd) as G0.
   assert (Hm : m <> TOff) by (intro Q; rewrite Q in Hsb; discriminate Hsb).
-  assert (Hscript : exists y, templates_mw m (probe (sets ++ OWh s :: map OWr bs) ret false) (entry act hd) = HRet 0 false y
-                              /\ answered s (concat bs) act y).
-  { unfold templates_mw, probe.
-    assert (Hgo : forall X, X = set_b (entry act hd) m false false 200 [] [] ->
-      exists y, match
-        match run_script (sets ++ OWh s :: map OWr bs) X with
-        | Done y => HRet ret false y | Pan y => HPan y end
-      with
-      | HRet code e y =>
-          if b_stream y || (300 <=? code) || e then HRet code e y
-          else if contains (b_buf y) TPL_OPEN then HRet 500 true y
-          else
-            let h1 := hcopy (b_hdr y) (chdr y) in
-            let h2 := hdel (hdel (hset h1 K_CL (decimal (Z.of_nat (length (b_buf y))))) K_ETAG) K_LM in
-            let h3 := match hget h2 K_CT with Some _ => h2 | None => hset h2 K_CT V_HTML end in
-            let y1 := set_chdr y h3 in
-            match bnd (h_wh (b_status y) y1)
-                      (fun z => match b_buf y with [] => Done z | _ => h_wr (b_buf y) z end) with
-            | Done z => HRet 0 false z
-            | Pan z => HPan z
-            end
-      | HPan y => HPan y
-      end = HRet 0 false y /\ answered s (concat bs) act y).
-    { intros X HX. subst X.
-      rewrite (run_sets _ _ _ Hs). rewrite (apply_sets_templates _ _ _ Hm).
-      cbn [run_script step]. unfold b_wh.
-      assert (Ba : b_active (set_b (entry act hd) m false false 200 (hs_fun sets []) []) = true)
-        by (unfold b_active; destruct m; try congruence; destruct act, hd; reflexivity).
-      rewrite Ba. cbn [b_wrote set_b b_mode b_hdr]. rewrite Hsb. cbn [negb bnd].
-      rewrite buffered_writes; [| unfold b_active; destruct m; try congruence; destruct act, hd; reflexivity
-                                | destruct act, hd; reflexivity | destruct act, hd; reflexivity].
-      cbn [b_stream set_b b_buf b_status b_hdr b_mode]. rewrite R3. cbn [orb app].
-      rewrite Htpl.
-      set (Y := set_b _ m true false s (hs_fun sets []) (concat bs)).
-      assert (FY : fresh Y) by (unfold Y; repeat apply fresh_set_b; exact F0).
-      assert (GY : gz_on Y = act) by (unfold Y; destruct act, hd; reflexivity).
+  assert (Hscript : exists r y, templates_mw m (probe (sets ++ OWh s :: map OWr bs) ret false) (entry act hd) = HRet r false y
+                              /\ (400 <=? r) = false /\ answered s (concat bs) act y).
+  { rewrite (templates_mw_on _ _ _ Hm). unfold templates_on.
+    rewrite (probe_buffered m sets s bs ret false (entry act hd) Hm Hs Hsb).
+    set (Y := set_b _ m true false s (hs_fun sets []) (concat bs)).
+    assert (FY : fresh Y) by (unfold Y; apply fresh_set_b; exact F0).
+    assert (GY : gz_on Y = act) by (unfold Y; destruct act, hd; reflexivity).
+    assert (HC : hget (hcopy (hs_fun sets []) (chdr Y)) K_CE = None)
+      by (rewrite hget_hcopy_none; [destruct act, hd; reflexivity | rewrite (hs_fun_ce _ _ Hs); reflexivity]).
+    replace (b_stream Y) with false by reflexivity.
+    replace (b_buf Y) with (concat bs) by reflexivity.
+    replace (b_status Y) with s by reflexivity.
+    replace (b_hdr Y) with (hs_fun sets []) by reflexivity.
+    cbn [orb negb]. rewrite andb_true_r, orb_false_r.
+    destruct (300 <=? ret) eqn:R3.
+    - (* a 3xx status was returned: the buffered response is passed on *)
+      assert (R5 : (ret <? 400) = true) by lia. rewrite R5. cbn [andb].
+      unfold b_write_buffered.
+      replace (b_wrote Y) with true by reflexivity. replace (b_stream Y) with false by reflexivity.
+      replace (b_buf Y) with (concat bs) by reflexivity.
+      replace (b_status Y) with s by reflexivity.
+      replace (b_hdr Y) with (hs_fun sets []) by reflexivity.
+      cbn [andb negb].
+      destruct (buffered_out Y _ s (concat bs) FY HC Hv Hb) as (z & Ez & Az).
+      rewrite Ez. exists ret, z. rewrite GY in Az. auto.
+    - (* the template is executed *)
+      rewrite (Htpl ltac:(lia)).
       set (h3 := match hget _ K_CT with Some _ => _ | None => _ end).
       assert (H3 : hget h3 K_CE = None).
-      { unfold h3. match goal with |- context [match ?e with _ => _ end] => destruct e end; hsimp;
-          (rewrite hget_hcopy_none; [destruct act, hd; reflexivity | rewrite (hs_fun_ce _ _ Hs); reflexivity]). }
-      destruct (concat bs) as [|b0 rest] eqn:Ebs.
-      - destruct (write3_empty Y h3 s FY H3 Hv Hb) as (z & Ez & Az).
-        unfold bnd. cbv beta iota. rewrite Ez. exists z. rewrite GY in Az. split; [reflexivity|exact Az].
-      - destruct (write3 Y h3 s (b0 :: rest) FY H3 Hv Hb) as (z & Ez & Az).
-        unfold bnd in Ez |- *. cbv beta iota. rewrite Ez. exists z. rewrite GY in Az. split; [reflexivity|exact Az]. }
-    destruct m; try congruence; exact (Hgo _ eq_refl). }
-  destruct Hscript as (y & Hy & A).
-  pose proof (errors_pass et (eff_path c path) (eff_errors c) _ _ 0 false y Hy eq_refl (or_introl eq_refl)) as He.
-  exact (outer_passes et (c_log c) act hd _ 0 false y s _ He eq_refl A).
+      { unfold h3. match goal with |- context [match ?e with _ => _ end] => destruct e end; hsimp; exact HC. }
+      destruct (buffered_out Y h3 s (concat bs) FY H3 Hv Hb) as (z & Ez & Az).
+      cbv zeta. fold h3. rewrite Ez. exists 0, z. rewrite GY in Az. auto. }
+  destruct Hscript as (r & y & Hy & R & A).
+  pose proof (errors_pass et (eff_path c path) (eff_errors c) _ _ r false y Hy R (or_introl eq_refl)) as He.
+  exact (outer_passes et (c_log c) act hd _ r false y s _ He R A).
 Qed.
